@@ -1,7 +1,8 @@
 // drv_sampler: runs the real samplers of libTMCG (src/mpz_srandom.cc, random_permutation_fast / random_rotation and
 // TMCG_CreateStackSecret of src/SchindelhauerTMCG.cc) on dictated or recorded coins and reports the raw results.
 // No expected value is computed here: spec/Sampler.tla (through SamplerGen / SamplerTrace) is the oracle.
-//   drv_sampler cases <cases.ndjson> <results.ndjson>     cases printed by TLC (direction A); one result line per case
+//   drv_sampler cases <cases.ndjson> <results.ndjson> [skip]   cases printed by TLC (direction A); one result line per case;
+//        a call that does not return within 8 s ends the process with exit 4 after a {"hang":true} line (resume with skip)
 //   drv_sampler record <seed> <count> <trace.ndjson> [maxn]   seeded random calls, every coin drawn is logged (direction B)
 // Numbers travel as little-endian byte arrays (the digit strings of spec/Digits.tla with Base = 256); a raw 64-bit
 // word is always 8 digits; a byte string drawn by the residue sampler is given in the order it fills the buffer.
@@ -76,6 +77,20 @@ static Drawn end_call() {
 	return d;
 }
 
+// ---------------------------------------------------------------- watchdog: a call that does not return is a result too
+#include <fcntl.h>
+static int g_outfd = -1;
+static char g_marker[512];
+static void on_alarm(int) {
+	if (g_outfd >= 0) { ssize_t k = write(g_outfd, g_marker, strlen(g_marker)); (void)k; }
+	_exit(4);
+}
+static void out_line(const std::string &s) {
+	std::string t = s + "\n"; size_t off = 0;
+	while (off < t.size()) { ssize_t k = write(g_outfd, t.data() + off, t.size() - off); if (k <= 0) break; off += k; }
+}
+static const unsigned WATCHDOG_S = 8;
+
 // ---------------------------------------------------------------- a call in a child process (crash = result)
 static json isolated(const std::function<json()> &f) {
 	int fd[2];
@@ -84,7 +99,8 @@ static json isolated(const std::function<json()> &f) {
 	pid_t pid = fork();
 	if (pid == 0) {
 		close(fd[0]);
-		alarm(10);
+		signal(SIGALRM, SIG_DFL);
+		alarm(WATCHDOG_S);
 		json r = f();
 		std::string s = r.dump();
 		size_t off = 0;
@@ -200,12 +216,18 @@ static json run_resid_case(const json &c, const std::string &lvl, uint64_t sd) {
 	seam::clear_script();
 	return r;
 }
-static int do_cases(const std::string &in, const std::string &out) {
-	std::ifstream f(in); std::ofstream o(out); std::string line; size_t k = 0;
+static int do_cases(const std::string &in, const std::string &out, size_t start) {
+	std::ifstream f(in); std::string line; size_t k = 0;
+	g_outfd = open(out.c_str(), O_WRONLY | O_CREAT | (start ? O_APPEND : O_TRUNC), 0644);
+	if (g_outfd < 0) return 2;
+	signal(SIGALRM, on_alarm);
 	while (std::getline(f, line)) {
 		if (line.empty()) continue;
-		json c = json::parse(line), res; res["id"] = c["id"]; res["runs"] = json::array();
 		k++;
+		if (k <= start) continue;                          // resumed after a call that did not return
+		json c = json::parse(line), res; res["id"] = c["id"]; res["runs"] = json::array();
+		snprintf(g_marker, sizeof(g_marker), "{\"id\":%ld,\"hang\":true,\"line\":%zu}\n", c["id"].get<long>(), k);
+		alarm(WATCHDOG_S);
 		std::string kind = c["kind"];
 		if (kind == "perm" || kind == "rot") {
 			const char *vias[3] = {"fn", "vtmf", "ring"};
@@ -215,9 +237,10 @@ static int do_cases(const std::string &in, const std::string &out) {
 		} else if (kind == "resid") {
 			for (size_t v = 0; v < c["lvls"].size(); v++) res["runs"].push_back(run_resid_case(c, c["lvls"][v], 1000 * k + v));
 		}
-		o << res.dump() << "\n";
+		alarm(0);
+		out_line(res.dump());
 	}
-	o.close();
+	close(g_outfd);
 	printf("{\"cases\":%zu}\n", k);
 	return 0;
 }
@@ -249,12 +272,16 @@ static unsigned long pick_modulus() {
 	}
 }
 static int do_record(uint64_t seed, size_t count, const std::string &out, size_t maxn) {
-	std::ofstream o(out);
+	g_outfd = open(out.c_str(), O_WRONLY | O_CREAT | O_TRUNC, 0644);
+	if (g_outfd < 0) return 2;
+	signal(SIGALRM, on_alarm);
 	seam::seed(seed); seam::seed_harness(seed);
 	const char *vias[3] = {"fn", "vtmf", "ring"};
 	for (size_t it = 0; it < count; it++) {
 		json ev;
 		unsigned what = H() % 10;
+		snprintf(g_marker, sizeof(g_marker), "{\"e\":\"Hang\",\"it\":%zu,\"what\":%u}\n", it, what);
+		alarm(WATCHDOG_S);
 		if (what < 6) {                                   // shuffle or rotation
 			bool cyclic = (what >= 4);
 			size_t n;
@@ -320,9 +347,10 @@ static int do_record(uint64_t seed, size_t count, const std::string &out, size_t
 			}
 			ev["qh"] = digits_of_mpz(qh.v);
 		}
-		o << ev.dump() << "\n";
+		alarm(0);
+		out_line(ev.dump());
 	}
-	o.close();
+	close(g_outfd);
 	printf("{\"events\":%zu}\n", count);
 	return 0;
 }
@@ -333,7 +361,7 @@ int main(int argc, char **argv) {
 	install_terminate("drv_sampler");
 	setup_objects();
 	std::string mode = argc > 1 ? argv[1] : "";
-	if (mode == "cases" && argc >= 4) return do_cases(argv[2], argv[3]);
+	if (mode == "cases" && argc >= 4) return do_cases(argv[2], argv[3], argc > 4 ? strtoul(argv[4], NULL, 10) : 0);
 	if (mode == "record" && argc >= 5)
 		return do_record(strtoull(argv[2], NULL, 10), strtoul(argv[3], NULL, 10), argv[4], argc > 5 ? strtoul(argv[5], NULL, 10) : 64);
 	fprintf(stderr, "usage: drv_sampler cases <in> <out> | record <seed> <count> <out> [maxn]\n");
